@@ -108,8 +108,9 @@ class Ctx:
     def __init__(self, pid, tier, seed):
         self.id, self.tier, self.seed = pid, tier, seed
         self.t0 = time.time()
-        self.gen = os.path.join(BUILD, "gen", pid)
-        self.work = os.path.join(BUILD, "work", pid)
+        # per-process directories: two runs of the same check (e.g. a developer's and a harness') must not share them
+        self.gen = os.path.join(BUILD, "gen", "%s.%d" % (pid, os.getpid()))
+        self.work = os.path.join(BUILD, "work", "%s.%d" % (pid, os.getpid()))
         for d in (self.gen, self.work):
             shutil.rmtree(d, ignore_errors=True)
             os.makedirs(d, exist_ok=True)
@@ -435,6 +436,8 @@ def run_property(pid, tier, seed):
     for l in lines:
         print(l)
     shutil.rmtree(ctx.work, ignore_errors=True)
+    if not (violations or os.environ.get("VERIF_KEEP")):
+        shutil.rmtree(ctx.gen, ignore_errors=True)      # kept after a violation for inspection
     print("%s %s: %s (%.1fs)" % (pid, tier, "FAIL" if violations else "ok", wall))
     return 1 if violations else 0
 
